@@ -237,6 +237,15 @@ func hasLabel(ls []thLabel, n string) bool {
 	return false
 }
 
+func hasLabelValue(ls []thLabel, n, v string) bool {
+	for _, l := range ls {
+		if l.N == n && l.V == v {
+			return true
+		}
+	}
+	return false
+}
+
 func thashGen(r *rand.Rand, idx int, thorough bool) interface{} {
 	base := thRun{Cfg: thCfg{Job: fmt.Sprintf("job%d", r.Intn(3)), Scheme: []string{"http", "https"}[r.Intn(2)], Path: []string{"/metrics", "/probe", "/a/b"}[r.Intn(3)]}, Note: "base"}
 	for k := 0; k < r.Intn(3); k++ {
@@ -268,6 +277,21 @@ func thashGen(r *rand.Rand, idx int, thorough bool) interface{} {
 			}
 			base.Targets = append(base.Targets, d)
 		}
+	}
+	// one case in three: the job label is pinned by the group (honoured by Prometheus and by kvass: the job's name is
+	// then no part of the final labels), so that the same targets under a job of another name are the same content
+	pinned := idx%3 == 0
+	if pinned && !hasLabel(base.GroupLabels, "job") {
+		for i := range base.Targets {
+			var nl []thLabel
+			for _, l := range base.Targets[i].Labels {
+				if l.N != "job" {
+					nl = append(nl, l)
+				}
+			}
+			base.Targets[i].Labels = nl
+		}
+		base.GroupLabels = append(base.GroupLabels, thLabel{"job", "pinned"})
 	}
 	c := &thCase{Runs: []thRun{base}}
 	// same content: reversed target order, one group label pushed down into every target that does not override it
@@ -345,6 +369,12 @@ func thashGen(r *rand.Rand, idx int, thorough bool) interface{} {
 	v5.PrevCfg = &prev
 	v5.Twice = r.Intn(3) == 0
 	c.Runs = append(c.Runs, v5)
+	if pinned && hasLabelValue(base.GroupLabels, "job", "pinned") {
+		v6 := cloneRun(base)
+		v6.Note = "renamedjob"
+		v6.Cfg.Job = base.Cfg.Job + "_renamed"
+		c.Runs = append(c.Runs, v6)
+	}
 	// single edits
 	ne := 2
 	if thorough {
